@@ -74,14 +74,19 @@ CHECKS = {
     "C03": dict(
         pkg="frame",
         level="exploration",
-        groups=[G("^TestC03_Read$", 4000, 30000)],
+        groups=[G("^TestC03_Read$", 4000, 30000), G("^TestC03_Wait$", 300, 1500)],
         fuzz=[("FuzzFraming", 90)],
         rule="byte stream = 1..8 (thorough 1..20) frame specs: valid message of any kind, frame filled to exactly msize-k (k 0..5), oversize by k, "
              "well-framed garbage/unknown type, body cut short at any point, length prefix 4..6, and only as last element an impossible prefix 0..3 or a "
              "stream ending mid-frame; msize in [24, 8192] boundary-dense; the connection hands the bytes out in generated chunk sizes (1-byte reads, splits "
              "inside the length prefix, large reads). Oracle: per frame, the reference decoder applied to that frame's own bytes and msize (absolute), and the "
-             "same frame alone on a fresh channel (isolation). Non-trivial = a non-first frame follows a frame of a different class, or reads split the length prefix.",
-        require_classes=dict(quick=["f_valid", "f_fill", "f_oversize", "f_garbage", "f_short", "f_tiny", "f_badprefix", "f_cutstream", "split_prefix", "after_setmsize", "setmsize_between_reads"], thorough=[]),
+             "same frame alone on a fresh channel (isolation). As last element also: an oversize frame whose stream ends inside (or before) the part to be discarded - an error, and "
+             "if it is reported as an overflow then of exactly the claimed excess - and a length prefix of 2^31..2^32-1 (and 2^31-1) followed by bytes that look like well-formed "
+             "frames (they belong to the one enormous frame: no message may be delivered from them). TestC03_Wait: 1..6 well-formed frames, up to 3 of them read by a ReadFcall "
+             "that is already waiting (0..7 bytes of the frame present) when its context is cancelled, the rest of the frame arriving afterwards: the read may return the message "
+             "or an error, but then the next read must deliver that frame (no frame lost, order kept). "
+             "Non-trivial = a non-first frame follows a frame of a different class, or reads split the length prefix, or a read was cancelled while waiting.",
+        require_classes=dict(quick=["f_valid", "f_fill", "f_oversize", "f_garbage", "f_short", "f_tiny", "f_badprefix", "f_cutstream", "f_cutoversize", "f_hugeprefix", "split_prefix", "after_setmsize", "setmsize_between_reads"], thorough=[]),
         assumptions=["after an impossible length prefix (0..3) or a premature end of stream nothing further is asserted (the position of the next frame is undefined)",
                      "the reference decoder (refwire.Decode) defines which bodies are decodable; it agrees with the library on millions of fuzzed inputs (C01 FuzzDecodeVsRef)"],
     ),
